@@ -21,12 +21,13 @@
 (***************************************************************************)
 EXTENDS Integers, Sequences, FiniteSets, TLC, TLCExt, Json
 
-CONSTANTS Dev,        \* enabled deviations
+CONSTANTS Circs,      \* the circuits the explored calls address (a subset of CircIds)
+          Dev,        \* enabled deviations
           Calls,      \* set of call kinds enabled in this configuration
           MaxLen      \* bound on the history length
 
 AllDev == {"OpCacheKeyedByName", "NodeCacheSurvives", "ApplyWritesVariations", "ToYamlWritesDefaults", "ClearSkipsWhenNoIR",
-           "CollectEdgesAppends", "UpdateVarNoCopy", "EdgeMapStale", "StateStash", "TemplateCacheByPath"}
+           "CollectEdgesAppends", "UpdateVarNoCopy", "EdgeMapStale", "StateStash", "TemplateCacheByPath", "UpdateVarInPlaceWhenPrivate"}
 
 (* ------------------------------ the universe ------------------------------ *)
 OpIds == {"o1", "o2", "o3", "o4"}
@@ -40,19 +41,21 @@ NtOp  == [t1 |-> "o1", t2 |-> "o2", t3 |-> "o3", t4 |-> "o1", t5 |-> "o4", t6 |-
 NtVar0 == [t1 |-> [k |-> Unset, x0 |-> Unset], t2 |-> [k |-> Unset, x0 |-> Unset],
            t3 |-> [k |-> 7, x0 |-> Unset],     t4 |-> [k |-> Unset, x0 |-> 15], t5 |-> [k |-> Unset, x0 |-> Unset],
            t6 |-> [k |-> 6, x0 |-> Unset]]
-CircIds == {"c1", "c2", "c3", "cy"}        \* cy: the template obtained from CircuitTemplate.from_yaml(path)
+CircIds == {"c1", "c2", "c3", "cy", "d1"}  \* d1: c1.update_template(name="d1") - a derived circuit that shares c1's node objects;        \* cy: the template obtained from CircuitTemplate.from_yaml(path)
 (* c1: a and b share one NodeTemplate object, c shares only the operator; c2: an operator with the same *name* as
    c1's; c3: shares the template object t1 with c1 and has an operator of the same *structure* under another name *)
 CircNodes0 == [c1 |-> <<[n |-> "a", t |-> "t1"], [n |-> "b", t |-> "t1"], [n |-> "c", t |-> "t4"]>>,
                c2 |-> <<[n |-> "a", t |-> "t2"], [n |-> "b", t |-> "t6"]>>,      \* b overrides k of the operator that a uses as declared
                c3 |-> <<[n |-> "a", t |-> "t3"], [n |-> "b", t |-> "t1"]>>,
-               cy |-> <<[n |-> "a", t |-> "t5"]>>]
+               cy |-> <<[n |-> "a", t |-> "t5"]>>,
+               d1 |-> <<[n |-> "a", t |-> "t1"], [n |-> "b", t |-> "t1"], [n |-> "c", t |-> "t4"]>>]
 CircEdges0 == [c1 |-> <<[s |-> 1, t |-> 2, w |-> 4], [s |-> 3, t |-> 1, w |-> 6]>>, c2 |-> <<>>,
-               c3 |-> <<[s |-> 1, t |-> 2, w |-> 8]>>, cy |-> <<>>]
+               c3 |-> <<[s |-> 1, t |-> 2, w |-> 8]>>, cy |-> <<>>,
+               d1 |-> <<[s |-> 1, t |-> 2, w |-> 4], [s |-> 3, t |-> 1, w |-> 6]>>]
 (* the edges of c1 and c3 use EdgeTemplates whose operators share the name "E" but multiply by different gains *)
-EdgeGain0 == [c1 |-> 3, c2 |-> 1, c3 |-> 6, cy |-> 1]
+EdgeGain0 == [c1 |-> 3, c2 |-> 1, c3 |-> 6, cy |-> 1, d1 |-> 3]
 (* an extrinsic input (constant array) on the first node when a compile is asked for one *)
-InpVal == [c1 |-> 7, c2 |-> 11, c3 |-> 13, cy |-> 17]
+InpVal == [c1 |-> 7, c2 |-> 11, c3 |-> 13, cy |-> 17, d1 |-> 19]
 VarNames == {"k", "x0"}
 NewVals == [k |-> 9, x0 |-> 40]          \* values written by overrides (distinct from every default)
 
@@ -69,13 +72,15 @@ VARIABLES tv,        \* NtId -> [k, x0]     variation dict of each shared NodeTe
           yhot,      \* template_cache holds the template of the YAML path
           yhas,      \* the user holds a template obtained from from_yaml (circuit "cy" exists)
           hasIr,     \* per circuit: the template still holds the IR of its last compile (clear=False)
+          dhas,      \* the derived circuit d1 exists
+          alias,     \* node index -> d1's entry and c1's entry are one (privately copied) NodeTemplate object
           yfresh,    \* M (ghost): the template the user holds should still be exactly what the file says
           handles,   \* functions returned earlier: Seq([c, units])
           last,      \* observable of the last call
           fired,     \* deviations that have influenced an observable so far
           tr         \* call history (hidden from the fingerprint)
-vars == <<tv, od, cn, ce, opCache, nodeCache, stash, yhot, yhas, hasIr, yfresh, handles, last, fired, tr>>
-View == <<tv, od, cn, ce, opCache, nodeCache, stash, yhot, yhas, hasIr, yfresh, handles, last, fired>>
+vars == <<tv, od, cn, ce, opCache, nodeCache, stash, yhot, yhas, hasIr, dhas, alias, yfresh, handles, last, fired, tr>>
+View == <<tv, od, cn, ce, opCache, nodeCache, stash, yhot, yhas, hasIr, dhas, alias, yfresh, handles, last, fired>>
 
 NoObs == [kind |-> "none", c |-> "none", units |-> <<>>, expect |-> <<>>, exc |-> "none", dec |-> FALSE]
 NoStash == [sizes |-> <<>>, vals |-> <<>>]
@@ -91,6 +96,7 @@ Init == /\ tv = NtVar0
         /\ opCache = EmptyOpCache /\ nodeCache = EmptyNodeCache
         /\ stash = [c \in CircIds |-> NoStash]
         /\ yhot = FALSE /\ yhas = FALSE /\ yfresh = FALSE /\ hasIr = [c \in CircIds |-> FALSE]
+        /\ dhas = FALSE /\ alias = [i \in 1..3 |-> FALSE]
         /\ handles = <<>> /\ last = NoObs /\ fired = {} /\ tr = <<>>
 
 (* ------------------------------- layer M ---------------------------------- *)
@@ -222,9 +228,9 @@ CompileWith(c, vec, clr, nvs, kind, inp) ==
                           ELSE cn[c][j]]]
          ELSE UNCHANGED <<tv, cn>>)
      /\ hasIr' = IF exc = "none" THEN [hasIr EXCEPT ![c] = ~clr] ELSE hasIr
-     /\ UNCHANGED <<od, ce, yhot, yhas, yfresh>>
+     /\ UNCHANGED <<od, ce, yhot, yhas, yfresh, dhas, alias>>
 
-Usable(c) == c = "cy" => yhas
+Usable(c) == (c = "cy" => yhas) /\ (c = "d1" => dhas)
 Compile(c, vec, clr, dec, inp) ==
   /\ "compile" \in Calls /\ Usable(c) /\ (dec => "decorator" \in Calls) /\ (inp => "input" \in Calls)
   /\ CompileWith(c, vec, clr, NoNv(c), IF dec THEN "compile_dec" ELSE "compile", inp)
@@ -255,11 +261,20 @@ UpdateVar(c, sel, var, arr, zero) ==
                                        ELSE [tv[t] EXCEPT ![var] = val(CHOOSE j \in js : \A j2 \in js : j2 <= j)]]
              /\ cn' = [cn EXCEPT ![c] = [j \in 1..Len(cn[c]) |->
                           IF j \in ts /\ cn[c][j].own THEN [cn[c][j] EXCEPT !.pv[var] = val(j)] ELSE cn[c][j]]]
-        ELSE /\ cn' = [cn EXCEPT ![c] = [j \in 1..Len(cn[c]) |->
-                          IF j \in ts THEN [cn[c][j] EXCEPT !.own = TRUE, !.pv = [VarOf(c, j) EXCEPT ![var] = val(j)]]
-                          ELSE cn[c][j]]]
-             /\ UNCHANGED tv
-  /\ yfresh' = (IF c = "cy" THEN FALSE ELSE yfresh) /\ UNCHANGED <<yhot, yhas, hasIr>>
+        ELSE LET pair == c \in {"c1", "d1"}
+                 other == IF c = "c1" THEN "d1" ELSE "c1"
+                 \* a node that is already a private copy shared with the derived / base circuit: the implementation copies
+                 \* again (the two circuits separate); the deviation writes into the shared object
+                 inplace(j) == "UpdateVarInPlaceWhenPrivate" \in Dev /\ pair /\ cn[c][j].own /\ alias[j]
+                 upd(e, j) == [e EXCEPT !.own = TRUE, !.pv = [VarOf(c, j) EXCEPT ![var] = val(j)]]
+             IN /\ cn' = [cc \in CircIds |->
+                            IF cc = c THEN [j \in 1..Len(cn[c]) |-> IF j \in ts THEN upd(cn[c][j], j) ELSE cn[c][j]]
+                            ELSE IF pair /\ cc = other THEN [j \in 1..Len(cn[cc]) |-> IF j \in ts /\ inplace(j) THEN upd(cn[c][j], j) ELSE cn[cc][j]]
+                            ELSE cn[cc]]
+                /\ alias' = IF pair THEN [j \in 1..3 |-> IF j \in ts /\ ~inplace(j) THEN FALSE ELSE alias[j]] ELSE alias
+                /\ UNCHANGED tv
+  /\ (IF "UpdateVarNoCopy" \in Dev THEN UNCHANGED alias ELSE TRUE)
+  /\ yfresh' = (IF c = "cy" THEN FALSE ELSE yfresh) /\ UNCHANGED <<yhot, yhas, hasIr, dhas>>
   /\ last' = NoObs
   /\ tr' = Append(tr, [a |-> "update_var", c |-> c, vec |-> arr, clr |-> FALSE, node |-> sel, var |-> var, val |-> NewVals[var], dec |-> FALSE, zero |-> zero])
   /\ UNCHANGED <<od, ce, opCache, nodeCache, stash, handles, fired>>
@@ -270,7 +285,7 @@ UpdateEdge(c, q) ==
   /\ ce' = [ce EXCEPT ![c][q].w = 50 + q]
   /\ last' = NoObs
   /\ tr' = Append(tr, [a |-> "update_edge", c |-> c, vec |-> FALSE, clr |-> FALSE, node |-> q, var |-> "weight", val |-> 50 + q, dec |-> FALSE])
-  /\ UNCHANGED <<tv, od, cn, opCache, nodeCache, stash, yhot, yhas, yfresh, hasIr, handles, fired>>
+  /\ UNCHANGED <<tv, od, cn, opCache, nodeCache, stash, yhot, yhas, yfresh, hasIr, dhas, alias, handles, fired>>
 
 (* read-only / copy-making calls: get_nodes, get_edges (collect_edges), to_yaml, deepcopy, update_template() copy *)
 ReadOnly(c, what) ==
@@ -287,14 +302,14 @@ ReadOnly(c, what) ==
       ELSE UNCHANGED ce)
   /\ last' = NoObs
   /\ tr' = Append(tr, [a |-> what, c |-> c, vec |-> FALSE, clr |-> FALSE, node |-> 0, var |-> "", val |-> 0, dec |-> FALSE])
-  /\ UNCHANGED <<tv, cn, opCache, nodeCache, stash, yhot, yhas, yfresh, hasIr, handles, fired>>
+  /\ UNCHANGED <<tv, cn, opCache, nodeCache, stash, yhot, yhas, yfresh, hasIr, dhas, alias, handles, fired>>
 
 ClearAll ==            \* pyrates.clear_frontend_caches()
   /\ "clear_frontend_caches" \in Calls
   /\ opCache' = EmptyOpCache /\ nodeCache' = EmptyNodeCache
   /\ last' = NoObs
   /\ tr' = Append(tr, [a |-> "clear_frontend_caches", c |-> "none", vec |-> FALSE, clr |-> FALSE, node |-> 0, var |-> "", val |-> 0, dec |-> FALSE])
-  /\ UNCHANGED <<tv, od, cn, ce, stash, yhas, yfresh, hasIr, handles, fired>>
+  /\ UNCHANGED <<tv, od, cn, ce, stash, yhas, yfresh, hasIr, dhas, alias, handles, fired>>
   /\ yhot' = FALSE
 
 FreshCy == [i \in 1..Len(CircNodes0["cy"]) |-> [n |-> CircNodes0["cy"][i].n, t |-> CircNodes0["cy"][i].t, own |-> FALSE, pv |-> [k |-> Unset, x0 |-> Unset]]]
@@ -307,7 +322,7 @@ LoadYaml ==            \* cy = CircuitTemplate.from_yaml(path): cached by path; 
   /\ yhot' = TRUE /\ yhas' = TRUE /\ yfresh' = TRUE
   /\ last' = NoObs
   /\ tr' = Append(tr, [a |-> "from_yaml", c |-> "cy", vec |-> FALSE, clr |-> FALSE, node |-> 0, var |-> "", val |-> 0, dec |-> FALSE])
-  /\ UNCHANGED <<tv, od, ce, opCache, nodeCache, handles, fired>>
+  /\ UNCHANGED <<tv, od, ce, opCache, nodeCache, dhas, alias, handles, fired>>
 
 ClearModel(c) ==       \* pyrates.clear(model): model.clear() if it holds an IR (AttributeError swallowed otherwise), then
                        \* clear_frontend_caches()
@@ -319,24 +334,34 @@ ClearModel(c) ==       \* pyrates.clear(model): model.clear() if it holds an IR 
   /\ hasIr' = [hasIr EXCEPT ![c] = FALSE]
   /\ last' = NoObs
   /\ tr' = Append(tr, [a |-> "clear_model", c |-> c, vec |-> FALSE, clr |-> FALSE, node |-> 0, var |-> "", val |-> 0, dec |-> FALSE])
-  /\ UNCHANGED <<tv, od, cn, ce, yhas, yfresh, handles, fired>>
+  /\ UNCHANGED <<tv, od, cn, ce, yhas, yfresh, dhas, alias, handles, fired>>
+
+Derive ==              \* d1 = c1.update_template(name='d1'): a new circuit object that references c1's node templates and edges
+  /\ "derive" \in Calls
+  /\ cn' = [cn EXCEPT !["d1"] = cn["c1"]] /\ ce' = [ce EXCEPT !["d1"] = ce["c1"]]
+  /\ stash' = [stash EXCEPT !["d1"] = NoStash] /\ hasIr' = [hasIr EXCEPT !["d1"] = FALSE]
+  /\ dhas' = TRUE /\ alias' = [j \in 1..3 |-> cn["c1"][j].own]
+  /\ last' = NoObs
+  /\ tr' = Append(tr, [a |-> "derive", c |-> "d1", vec |-> FALSE, clr |-> FALSE, node |-> 0, var |-> "", val |-> 0, dec |-> FALSE])
+  /\ UNCHANGED <<tv, od, opCache, nodeCache, yhot, yhas, yfresh, handles, fired>>
 
 CallEarlier(hd) ==     \* evaluate a function returned by an earlier compile: it keeps computing its own model
   /\ "call_earlier" \in Calls /\ hd \in 1..Len(handles)
   /\ last' = [kind |-> "call", c |-> handles[hd].c, units |-> handles[hd].units, expect |-> handles[hd].units, exc |-> "none", dec |-> FALSE]
   /\ tr' = Append(tr, [a |-> "call_earlier", c |-> handles[hd].c, vec |-> FALSE, clr |-> FALSE, node |-> hd, var |-> "", val |-> 0, dec |-> FALSE])
-  /\ UNCHANGED <<tv, od, cn, ce, opCache, nodeCache, stash, yhot, yhas, yfresh, hasIr, handles, fired>>
+  /\ UNCHANGED <<tv, od, cn, ce, opCache, nodeCache, stash, yhot, yhas, yfresh, hasIr, dhas, alias, handles, fired>>
 
 Next ==
-  \/ \E c \in CircIds, vec \in BOOLEAN, clr \in BOOLEAN, dec \in BOOLEAN, inp \in BOOLEAN : Compile(c, vec, clr, dec, inp)
+  \/ \E c \in Circs, vec \in BOOLEAN, clr \in BOOLEAN, dec \in BOOLEAN, inp \in BOOLEAN : Compile(c, vec, clr, dec, inp)
   \/ LoadYaml
-  \/ \E c \in CircIds : ClearModel(c)
-  \/ \E c \in CircIds, vec \in BOOLEAN : \E sel \in 0..Len(cn[c]) : \E var \in VarNames, arr \in BOOLEAN, zero \in BOOLEAN :
+  \/ Derive
+  \/ \E c \in Circs : ClearModel(c)
+  \/ \E c \in Circs, vec \in BOOLEAN : \E sel \in 0..Len(cn[c]) : \E var \in VarNames, arr \in BOOLEAN, zero \in BOOLEAN :
          (arr => sel = 0) /\ (zero => "zero" \in Calls) /\ CompileNV(c, sel, var, arr, zero, vec)
-  \/ \E c \in CircIds : \E sel \in 0..Len(cn[c]) : \E var \in VarNames, arr \in BOOLEAN, zero \in BOOLEAN :
+  \/ \E c \in Circs : \E sel \in 0..Len(cn[c]) : \E var \in VarNames, arr \in BOOLEAN, zero \in BOOLEAN :
          (arr => sel = 0) /\ (zero => "zero" \in Calls) /\ UpdateVar(c, sel, var, arr, zero)
-  \/ \E c \in CircIds : \E q \in 1..Len(ce[c]) : UpdateEdge(c, q)
-  \/ \E c \in CircIds, what \in Calls : ReadOnly(c, what)
+  \/ \E c \in Circs : \E q \in 1..Len(ce[c]) : UpdateEdge(c, q)
+  \/ \E c \in Circs, what \in Calls : ReadOnly(c, what)
   \/ ClearAll
   \/ \E hd \in 1..2 : CallEarlier(hd)
 Bound == Len(tr) <= MaxLen
@@ -368,6 +393,8 @@ ClearingCompiles == /\ \A i \in 1..Len(tr) : tr[i].a = "compile" => tr[i].clr
 (* quick tiers: the decorator and the input are exercised on plain (non-vectorised) compiles, one at a time *)
 FewFlags == \A i \in 1..Len(tr) : /\ (tr[i].a = "compile" => (~(tr[i].dec /\ tr[i].inp) /\ ((tr[i].dec \/ tr[i].inp) => ~tr[i].vec)))
                                    /\ (tr[i].a = "compile_nv" => tr[i].node # 0)          \* all/ node_values: C07
+(* restriction to histories about c1 and the circuit derived from it *)
+OnlyPair == \A i \in 1..Len(tr) : tr[i].c \in {"c1", "d1"}
 OnlyCy == \A i \in 1..Len(tr) : tr[i].c \in {"cy", "none"}
 ReadOnlyKinds == {"compile", "compile_nv", "get_nodes", "collect_edges", "to_yaml", "deepcopy", "update_template_copy",
                   "getitem", "clear_frontend_caches", "call_earlier", "clear_model"}
@@ -376,6 +403,11 @@ LoadYieldsFile ==
   [][ (tr' # tr /\ tr'[Len(tr')].a = "from_yaml") =>
         /\ Meaning("cy")' = Meaning0("cy") /\ stash'["cy"] = NoStash
         /\ \A c \in CircIds \ {"cy"} : Meaning(c)' = Meaning(c) ]_vars
+(* C13 / C14: deriving a circuit leaves every other circuit as it was; the derived one means what its base means *)
+DeriveCopies ==
+  [][ (tr' # tr /\ tr'[Len(tr')].a = "derive") =>
+        /\ Meaning("d1")' = [i \in 1..Len(cn["c1"]) |-> Meaning("c1")[i]]
+        /\ \A c \in CircIds \ {"d1"} : Meaning(c)' = Meaning(c) ]_vars
 ReadOnlyPreservesMeaning ==
   [][ (tr' # tr /\ tr'[Len(tr')].a \in ReadOnlyKinds) => \A c \in CircIds : Meaning(c)' = Meaning(c) ]_vars
 (* C07: an override changes the addressed nodes' variable and nothing else - in any circuit *)
